@@ -5,7 +5,8 @@
 From Coq Require Import List Ascii String ZArith NArith Bool Lia Classical_Prop.
 From Anthem Require Import Base.ISet Base.Fresh Syntax.Fol Syntax.Asp Sem.Domain Sem.Sat
   Model.Break Model.Problem Model.Outline Model.Strong Model.External
-  Proofs.SemBase Proofs.BreakOk Proofs.DecomposeOk Proofs.StrongOk Proofs.ExternalOk Proofs.AssemblyOk Proofs.RenameOk.
+  Proofs.SemBase Proofs.BreakOk Proofs.DecomposeOk Proofs.StrongOk Proofs.ExternalOk Proofs.AssemblyOk Proofs.RenameOk
+  Proofs.C19Ext.
 Import ListNotations.
 Open Scope string_scope.
 Open Scope list_scope.
@@ -147,11 +148,14 @@ Theorem external_validated t L w pbs :
   exists lft rgt uga w',
     task_left t L = Some lft /\ task_right t = Some rgt /\
     map an_formula uga = map (fun a => rp_formula (task_placeholders t) (an_formula a)) (filter is_assumption (ug_formulas (et_user_guide t))) /\
-    validated_decompose (mkvalidated lft rgt uga empty_outline (et_decomposition t) (et_direction t) (et_break t)) = Ok (w', pbs).
+    validated_decompose (mkvalidated lft rgt uga empty_outline (et_decomposition t) (et_direction t) (et_break t)) = Ok (w', pbs) /\
+    task_validated tau_star completion simp_classic t
+    = Some (mkvalidated lft rgt uga empty_outline (et_decomposition t) (et_direction t) (et_break t)).
 Proof.
   intros Hs Ho. unfold external_decompose. rewrite Hs, Ho.
   destruct (external_validate is_tight has_private_recursion t) as [w0|e|]; try discriminate.
-  fold (task_placeholders t). unfold task_left, task_right, task_mapping, task_spec_private, task_prog_private. rewrite Hs.
+  unfold task_validated, side_left, side_right, task_m, task_public, task_renaming.
+  fold (task_placeholders t). unfold task_left, task_right, task_mapping, task_spec_private, task_prog_private. rewrite Hs, Ho.
   destruct (translate t (task_placeholders t) L) as [thl|]; cbn [option_map]; [|discriminate].
   destruct (translate t (task_placeholders t) (et_program t)) as [thr|]; cbn [option_map]; [|discriminate].
   destruct (user_guide_assumptions _ _ _ [] []) as [[uga w1]|e|] eqn:Eu; try discriminate.
@@ -161,6 +165,13 @@ Proof.
   eexists _, _, rest, w3. repeat split; [exact Er|exact Ev].
 Qed.
 
+(* the clash premise, for the task's OWN validated task (its own user-guide assumptions): no symbol
+   of a formula of the assembled task equals a 0-ary predicate of it, i.e.
+   rename_conflicting_symbols is the identity on the emitted problems.  (The earlier statements
+   quantified over EVERY list of user-guide assumptions, which no task satisfies: audit A1.) *)
+Definition task_no_clash (t : ext_task) : Prop :=
+  forall vt, task_validated tau_star completion simp_classic t = Some vt -> validated_no_clash vt.
+
 (* C02_assembly for program-vs-program tasks: an interpretation that satisfies the user-guide
    assumptions and the completed definitions of the private predicates of both sides refutes an
    emitted problem iff, for an enabled direction, it satisfies the public part of the premise side
@@ -168,7 +179,7 @@ Qed.
 Theorem C02_assembly_proof t L w pbs lft rgt :
   et_specification t = inl L -> et_proof_outline t = [] -> decompose_ext t = Ok (w, pbs) ->
   task_left t L = Some lft -> task_right t = Some rgt ->
-  (forall uga, validated_no_clash (mkvalidated lft rgt uga empty_outline (et_decomposition t) (et_direction t) (et_break t))) ->
+  (forall vt, task_validated tau_star completion simp_classic t = Some vt -> validated_no_clash vt) ->
   forall FI M,
     tvalid FI M (map (fun a => rp_formula (task_placeholders t) (an_formula a)) (filter is_assumption (ug_formulas (et_user_guide t)))) ->
     tvalid FI M (assumptions_of lft) -> tvalid FI M (assumptions_of rgt) ->
@@ -177,9 +188,9 @@ Theorem C02_assembly_proof t L w pbs lft rgt :
      (dir_backward (et_direction t) = true /\ tvalid FI M (specs_of rgt) /\ ~ tvalid FI M (specs_of lft))).
 Proof.
   intros Hs Ho Hd El Er Hn FI M Hug Hal Har.
-  destruct (external_validated t L w pbs Hs Ho Hd) as [lft' [rgt' [uga [w' [El' [Er' [Eu Hv]]]]]]].
+  destruct (external_validated t L w pbs Hs Ho Hd) as [lft' [rgt' [uga [w' [El' [Er' [Eu [Hv Htv]]]]]]]].
   rewrite El in El'. injection El' as <-. rewrite Er in Er'. injection Er' as <-.
-  apply (validated_translated_refutes _ w' pbs Hv eq_refl (Hn uga)); cbn; auto.
+  apply (validated_translated_refutes _ w' pbs Hv eq_refl (Hn _ Htv)); cbn; auto.
   - unfold task_left in El. destruct (translate t (task_placeholders t) L); [|discriminate]. injection El as <-.
     apply control_translate_translated.
   - unfold task_right in Er. destruct (translate t (task_placeholders t) (et_program t)); [|discriminate]. injection Er as <-.
@@ -223,7 +234,7 @@ Hypothesis translate_meaning : forall t P th FI M,
 Theorem C02_partial_proof t L w pbs lft rgt :
   et_specification t = inl L -> et_proof_outline t = [] -> decompose_ext t = Ok (w, pbs) ->
   task_left t L = Some lft -> task_right t = Some rgt ->
-  (forall uga, validated_no_clash (mkvalidated lft rgt uga empty_outline (et_decomposition t) (et_direction t) (et_break t))) ->
+  (forall vt, task_validated tau_star completion simp_classic t = Some vt -> validated_no_clash vt) ->
   forall FI M,
     tvalid FI M (map (fun a => rp_formula (task_placeholders t) (an_formula a)) (filter is_assumption (ug_formulas (et_user_guide t)))) ->
     tvalid FI M (assumptions_of lft) -> tvalid FI M (assumptions_of rgt) ->
